@@ -934,6 +934,33 @@ Proof.
   - exact Rv.
 Qed.
 
+(* the two byte counts the loader computes from the (fractional) bit rate, for every well-formed (N, N, 4) header:
+   int(4*4*blockshape[1]*rate) // 8 and int(shape_pad[1]*4*4*rate) // 8 (used by Proofs/FaultsWf.v for C17) *)
+Lemma adv_r1_eq : Z.quot (4 * 4 * rd_blockshape1 H * rd_rate_n H) (rd_rate_d H) / 8 = adv_sub_len H.
+Proof.
+  destruct (wf3_unpack H W) as (_ & _ & _ & _ & _ & _ & _ & _ & _ & Rc & _ & Uex & _).
+  assert (Rdpos : 0 < s_rd H). { unfold s_rd. destruct (s_rate_code H <? 0) eqn:Q; lia. }
+  pose proof (f_bs1 H F) as B1. pose proof (f_ub H F) as Ub. pose proof (g_u1pos H W) as U1. pose proof (g_bs1_u1 H W) as E1.
+  rewrite (r_bs1 H F), (r_rn H F), (r_rd H F). unfold adv_sub_len.
+  rewrite (quot_exact _ _ (8 * (s_bs1 H / 4 * s_ub3 H))); [rewrite Z.mul_comm; apply Z_div_mult; lia | lia | nia |].
+  rewrite E1 at 1. set (u1 := s_bs1 H / 4) in *.
+  replace (4 * 4 * (4 * u1) * s_rn H) with (u1 * (64 * s_rn H)) by ring. rewrite <- Uex. ring.
+Qed.
+
+Lemma adv_r2_eq : Z.quot (rd_shape_pad1 H * 4 * 4 * rd_rate_n H) (rd_rate_d H) / 8 = nbx3 H * adv_sub_len H.
+Proof.
+  destruct (wf3_unpack H W) as (_ & _ & _ & _ & _ & _ & _ & _ & _ & Rc & _ & Uex & _).
+  assert (Rdpos : 0 < s_rd H). { unfold s_rd. destruct (s_rate_code H <? 0) eqn:Q; lia. }
+  pose proof (f_bs1 H F) as B1. pose proof (f_ub H F) as Ub. pose proof (g_u1pos H W) as U1.
+  destruct (nb_pos3 H W) as (NI & NX & NZ). destruct (f_PX H F) as (_ & PXm & PX4 & _).
+  assert (X4 : s_PX H / 4 = nbx3 H * (s_bs1 H / 4)).
+  { unfold nbx3. apply div4_split; [lia | apply (f_bs1m H F) | exact PXm]. }
+  rewrite (r_P1 H F), (r_rn H F), (r_rd H F). unfold adv_sub_len.
+  rewrite (quot_exact _ _ (8 * (nbx3 H * (s_bs1 H / 4 * s_ub3 H)))); [rewrite Z.mul_comm; apply Z_div_mult; lia | lia | nia |].
+  rewrite (exact_div (s_PX H) 4 ltac:(lia) PX4) at 1. rewrite X4. set (u1 := s_bs1 H / 4) in *.
+  replace (4 * (nbx3 H * u1) * 4 * 4 * s_rn H) with (nbx3 H * u1 * (64 * s_rn H)) by ring. rewrite <- Uex. ring.
+Qed.
+
 End ZSLICE_ADV.
 
 (* what "I/O proportional" means for the z-slice of a (N, N, 4) file: per tile (bi, bx) of the slice the bs0/4
